@@ -51,7 +51,7 @@ func (mc *Machine) snapshotRestore(t *rapid.T, src *column.Collection, capacity 
 	if before != nil {
 		before(dst)
 	}
-	if err := dst.Restore(bytes.NewReader(buf.Bytes())); err != nil {
+	if err := dst.Restore(deliver(buf.Bytes(), len(buf.Bytes())>>2)); err != nil {
 		dst.Close()
 		mc.fail(t, "Restore failed: %v", err)
 	}
